@@ -734,7 +734,7 @@ moved between the machines".into();
     // ---- resolver level: KanidmProvider::new calibrates Argon2 (~1 s CPU per provider), so the
     // machine pairs are spread over worker threads; every pair has its own forked PRNG, so the
     // cases do not depend on the scheduling.
-    let n_cfg: usize = if args.thorough { 96 } else { 24 };
+    let n_cfg: usize = if args.thorough { 64 } else { 24 };
     let n_hist: usize = if args.thorough { 8 } else { 5 };
     let n_workers: usize = 12;
     let seeds: Vec<Rng> = (0..n_cfg).map(|_| rng.fork()).collect();
